@@ -168,3 +168,43 @@ func TestVerifWitness_DR5(t *testing.T) {
 		t.Fatalf("65536 containers under the run cookie decoded to %d values, want 65536", got)
 	}
 }
+
+// DR6: CountRange fast path used the next container when the seeked key holds a nil container.
+func TestVerifWitness_DR6(t *testing.T) {
+	b := NewBitmap(0, 100<<16)
+	if _, err := b.Remove(0); err != nil {
+		t.Fatal(err)
+	}
+	if got := b.CountRange(0, 1); got != 0 {
+		t.Fatalf("NewBitmap(0, 100<<16); Remove(0); CountRange(0,1) = %d, want 0", got)
+	}
+	if got := b.CountRange(0, 65535); got != 0 {
+		t.Fatalf("CountRange(0,65535) = %d, want 0", got)
+	}
+}
+
+// DR7: UnmarshalBinary reset opN but not ops.
+func TestVerifWitness_DR7(t *testing.T) {
+	var log bytes.Buffer
+	b := NewBTreeBitmap()
+	b.OpWriter = &log
+	if _, err := b.Add(1); err != nil {
+		t.Fatal(err)
+	}
+	snap := vr2WitnessBytes(t, b)
+	if err := b.UnmarshalBinary(snap); err != nil {
+		t.Fatal(err)
+	}
+	if ops, opN := b.Ops(); ops != 0 || opN != 0 {
+		t.Fatalf("bitmap with one logged Add, re-read from a snapshot without a log: Ops()=(%d,%d), want (0,0)", ops, opN)
+	}
+	// snapshot followed by a log of two ops, decoded in place: exactly those two
+	data := append(vr2CopyBytes(snap), log.Bytes()...)
+	data = append(data, log.Bytes()...)
+	if err := b.UnmarshalBinary(data); err != nil {
+		t.Fatal(err)
+	}
+	if ops, opN := b.Ops(); ops != 2 || opN != 2 {
+		t.Fatalf("decoding a snapshot with two logged ops in place: Ops()=(%d,%d), want (2,2)", ops, opN)
+	}
+}
